@@ -4,7 +4,7 @@ From Continuum Require Import Model.Base Model.VTable Model.Core Model.Manager
 
 Record C09_case := {
   c9_cfg : cfg;
-  c9_steps : list (nat * nat * ev);                   (* session id, connection id, event            *)
+  c9_steps : list (nat * nat * gev);                  (* session id, connection id, event            *)
   c9_maps : list (list nat * list (nat * nat));       (* after each step: connections holding a unit
                                                          of work; (session, connection) map entries *)
   c9_finals : list (nat * snap);                      (* connection id -> final content of its database *)
@@ -21,11 +21,11 @@ Definition same_set_pair (a b : list (nat * nat)) : bool :=
 Definition dbapi_id (c : nat) : nat := c.          (* every connection has its own DB-API connection *)
 Definition never_closed (c : nat) : bool := false.
 
-Fixpoint grun_trace (g : cfg) (G : gstate) (steps : list (nat * nat * ev)) : list gstate :=
+Fixpoint grun_trace (g : cfg) (G : gstate) (steps : list (nat * nat * gev)) : list gstate :=
   match steps with
   | [] => []
   | (sid, c, e) :: steps' =>
-      let G' := gstep dbapi_id never_closed g G (mksess sid c) e in G' :: grun_trace g G' steps'
+      let G' := gstep2 dbapi_id never_closed g G (mksess sid c) e in G' :: grun_trace g G' steps'
   end.
 
 Fixpoint all2 {A B} (f : A -> B -> bool) (a : list A) (b : list B) : bool :=
